@@ -23,7 +23,11 @@
                        (reads do not look at `peerGone`: what the client wrote before it went
                        away may still be taken off the socket buffer)
   ws.rs:154-185        call task: handler (`callStart` … `handlerReturn`), then `sink.send(json)`
-                       into the bounded queue (`enqueue`), fails when the writer is gone.
+                       into the bounded queue (`enqueue`, waits for room: disabled while
+                       `queuedCount = cap`), fails when the writer is gone.  The task's clone of the
+                       service — which owns the pending-call token — lives until the task ends, i.e.
+                       until AFTER the answer is queued: `answered` still counts as pending
+                       (`isPending`), so `wsDrained` cannot overtake an answer waiting for room.
   future.rs:83-95      `stop()` = `watch::Sender::send` (Err iff no receiver is left);
                        `stopped()` = `Sender::closed()`: resolves when NO `StopHandle` exists any
                        more, i.e. accept task finished and every connection task finished.
